@@ -57,7 +57,7 @@ Section Checks.
     else if c =? k_String then kind =? k_String
     else if c =? k_Slice then (kind =? k_Slice) && elem_ok ss
     else if c =? k_Array then (kind =? k_Array) && elem_ok ss
-    else if c =? k_Pointer then ((kind =? k_Pointer) && elem_ok ss) || (kind =? k_UnsafePointer)
+    else if c =? k_Pointer then (kind =? k_Pointer) && elem_ok ss
     else if c =? k_Struct then (kind =? k_Struct) && asg_true ss ALoop && asg_false sd (AIs PSelf w_Time)
     else if c =? k_Map then (kind =? k_Map) && elem_ok ss && key_ok ss kk
     else false.
